@@ -123,7 +123,8 @@ TRelease ==
                /\ (~stalled => B!Ge(B!Add(B!Add(B!Mul(h1, P), P), B!Mul(h1, F)), B!Mul(F, e.t)))
           ELSE IF p.kind \in {"sine", "linear"} /\ ~p.unlimited
           THEN /\ nhits + 1 <= e.hhi + 1                                   \* Upper
-               /\ (p.kind = "sine" /\ ~stalled => nhits + 1 >= e.hlo - 1)  \* Lower
+               \* Lower: one hit, plus one nanosecond of quantisation per hit interval (p.qe4 = the peak rate in 1e-4 hits/ns, rounded up)
+               /\ (p.kind = "sine" /\ ~stalled => nhits + 1 + (((nhits + 1) * p.qe4 + 9999) \div 10000) >= e.hlo - 1)
           ELSE TRUE
        /\ t' = due /\ hits' = h1 /\ nhits' = nhits + 1
     /\ phase' = "consult"
